@@ -212,7 +212,7 @@ def run(ctx):
         body = ';\n'.join('(%s, %s, %s, %s)' % (g_list(['(%s%%N, %s)' % (z, q(v)) for z, v in tab.items()]),
                                                g_list(['%d%%N' % z for z in atoms]), q(s), q(sel))
                           for tab, atoms, s, sel in elcases[s0:s0 + step])
-        texts.append(HEADER + 'Definition cases := [\n%s\n].\nEval vm_compute in mismatches okel 0 cases.\n' % body)
+        texts.append(HEADER + 'Definition cases : list (list (N * Q) * list N * Q * Q) := [\n%s\n].\nEval vm_compute in mismatches okel 0 cases.\n' % body)
     nbad = 0
     for k, (ok, out) in enumerate(vlib.run_cases_sharded('c07_' + ctx.tier, texts)):
         val = vlib.coq_eval_value(out) if ok else None
